@@ -29,6 +29,10 @@ func init() {
 			{ID: "C18.R4", Min: 7, Doc: "index guard: a snapshot slice indexed by an int parameter needs a dominating `param >= len(slice)` (or `len(slice) <= param`) test whose true edge returns a non-nil error and reaches no Store; DelRoute's not-found paths store nothing and return nil", Run: c18r4},
 			{ID: "C18.R5", Min: 5, Doc: "unpublish before shutdown: in a function that both Stores a new snapshot and calls Shutdown on a route/aggregator/destination, the Store dominates the Shutdown call; a send on a channel field whose only receiver is a select loop that can return must be inside a select with another ready case", Run: c18r5},
 			{ID: "C18.R6", Min: 3, Doc: "lockset: every access to Destination.Matcher on an object that is neither freshly allocated nor a Snapshot() copy happens while lockMatcher is held", Run: c18r6},
+			{ID: "C18.R7", Min: 2, Doc: "a modification takes effect: in route.update and Destination.Update the flag under which the new filter is built and installed becomes true for each of the six filter options and is never cleared or recomputed inside the option loop (part of rule C20.R1 evaluated for this property as well)", Run: func(c *Check) {
+				checkUpdateFlag(c, c.P.Func("route", "*baseRoute", "update"), "route.baseRoute.update (modRoute)")
+				checkUpdateFlag(c, c.P.Func("destination", "*Destination", "Update"), "destination.Destination.Update (modDest)")
+			}},
 		},
 	})
 }
@@ -84,6 +88,80 @@ func c18r1(c *Check) {
 						c.Violate(fmt.Sprintf("%s store %s[i]", fname, typeElem(ia.X.Type())), c.At(in), "element store into a slice derived from the published snapshot")
 					}
 				}
+			}
+		})
+	}
+	// a re-slice that keeps spare capacity of the shared backing array must not be published:
+	// the next append on the new snapshot would write into a slot older snapshots still read
+	for _, fn := range c.P.Funcs {
+		fname := FuncName(fn)
+		allInstrs(fn, func(in ssa.Instruction) {
+			_, fld, ok := publishedAccess(in, atomicStore)
+			if !ok {
+				return
+			}
+			arg := callCommon(in).Args[1]
+			seen := map[ssa.Value]bool{}
+			var short ssa.Value
+			var walk func(v ssa.Value, depth int)
+			walk = func(v ssa.Value, depth int) {
+				if v == nil || seen[v] || depth > 30 || short != nil {
+					return
+				}
+				seen[v] = true
+				if t.short[v] {
+					short = v
+					return
+				}
+				switch x := v.(type) {
+				case *ssa.MakeInterface:
+					walk(x.X, depth+1)
+				case *ssa.ChangeType:
+					walk(x.X, depth+1)
+				case *ssa.ChangeInterface:
+					walk(x.X, depth+1)
+				case *ssa.Phi:
+					for _, e := range x.Edges {
+						walk(e, depth+1)
+					}
+				case *ssa.Call:
+					if b, ok := x.Call.Value.(*ssa.Builtin); ok {
+						// append(dst, src...): only dst's backing array can be the result's
+						if b.Name() == "append" && len(x.Call.Args) > 0 {
+							walk(x.Call.Args[0], depth+1)
+						}
+						return
+					}
+					for _, a := range x.Call.Args {
+						walk(a, depth+1)
+					}
+				case *ssa.UnOp:
+					if al, ok := x.X.(*ssa.Alloc); ok && x.Op == token.MUL {
+						for _, r := range *al.Referrers() {
+							switch y := r.(type) {
+							case *ssa.Store:
+								if y.Addr == ssa.Value(al) {
+									walk(y.Val, depth+1)
+								}
+							case *ssa.FieldAddr:
+								for _, rr := range *y.Referrers() {
+									if st, ok := rr.(*ssa.Store); ok && st.Addr == ssa.Value(y) {
+										walk(st.Val, depth+1)
+									}
+								}
+							}
+						}
+					}
+				}
+			}
+			walk(arg, 0)
+			if short != nil {
+				n++
+				pos := c.At(in)
+				if si, ok := short.(ssa.Instruction); ok {
+					pos = c.At(si)
+				}
+				c.Violate(fmt.Sprintf("%s publishes a re-slice of the old snapshot (%s)", fname, fld.Name()), pos, "the new snapshot's slice is s[:i] of the previous snapshot's backing array (capacity not clipped): the next append on it overwrites a slot that dispatchers holding an older snapshot still read — a metric goes to a destination/route that neither the table before nor after the change contains")
 			}
 		})
 	}
@@ -160,9 +238,65 @@ func c18r3(c *Check) {
 				c.Violate(key, c.At(ls[0]), "Load of the published config inside a loop: iterations may see different snapshots")
 				continue
 			}
-			c.Hold(key, c.At(ls[0]), "single Load, outside any loop")
+			// no second view through a method called on the same object
+			if why := secondViewThroughCallee(c, fn, fld, ls[0]); why != "" {
+				c.Violate(key, c.At(ls[0]), why)
+				continue
+			}
+			c.Hold(key, c.At(ls[0]), "single Load, outside any loop, and no callee on the same object loads it again")
 		}
 	}
+}
+
+// secondViewThroughCallee: fn (a method that loads the published config fld of its receiver) calls,
+// on the same receiver and synchronously, a method that loads fld again.
+func secondViewThroughCallee(c *Check, fn *ssa.Function, fld *types.Var, load ssa.Instruction) string {
+	if fn.Signature.Recv() == nil || len(fn.Params) == 0 {
+		return ""
+	}
+	loadsField := func(g *ssa.Function) ssa.Instruction {
+		var at ssa.Instruction
+		allInstrs(g, func(in ssa.Instruction) {
+			if _, f2, ok := publishedAccess(in, atomicLoad); ok && f2 == fld {
+				at = in
+			}
+		})
+		return at
+	}
+	type item struct {
+		f    *ssa.Function
+		recv ssa.Value
+	}
+	seen := map[*ssa.Function]bool{fn: true}
+	work := []item{{fn, fn.Params[0]}}
+	for len(work) > 0 {
+		it := work[len(work)-1]
+		work = work[:len(work)-1]
+		var res string
+		allInstrs(it.f, func(in ssa.Instruction) {
+			call, ok := in.(*ssa.Call)
+			if !ok || res != "" {
+				return
+			}
+			g := call.Call.StaticCallee()
+			if g == nil || g.Blocks == nil || g.Signature.Recv() == nil || len(call.Call.Args) == 0 || seen[g] {
+				return
+			}
+			if strip(call.Call.Args[0]) != strip(it.recv) {
+				return
+			}
+			seen[g] = true
+			if at := loadsField(g); at != nil {
+				res = fmt.Sprintf("%s holds one snapshot of %s and calls %s on the same object, which loads it again (%s): one message is processed against two versions of the table — e.g. blacklisted/rewritten under the old one and routed under the new one", FuncName(fn), fld.Name(), FuncName(g), c.At(at))
+				return
+			}
+			work = append(work, item{g, g.Params[0]})
+		})
+		if res != "" {
+			return res
+		}
+	}
+	return ""
 }
 
 func c18r4(c *Check) {
